@@ -1,16 +1,30 @@
 """C06 - Game lifecycle: turns, balls and lifecycle events are well-formed.
 
-Implementation side: the real Game mode on a real machine (MpfFakeGameTestCase scaffolding: playfield.add_ball stubbed,
-num_balls_known set), 1-4 players, 1-4 balls per game; requests injected from handlers of every lifecycle event (above or
-below the game's own handlers), from inside queue events whose clear is delayed, and between events: end_ball, end_game,
-slam tilt (as the tilt mode does it), balls_in_play = n (also out of range), ball_drain relay events, extra-ball awards,
-player-add requests.  Every lifecycle post (with current player and ball) and every request that took effect is logged
-and replayed on the Lean model (MpfVerif.Model.Game: the coroutine as a resumable state machine; one `resume` per
-lifecycle post; not-enabled = disagreement); balls_in_play, num_players, ending compared after every step.
-Oracle (model independent): a recursive-descent recogniser of the lifecycle grammar + the numeric clauses of the property
-on the real trace.
+Two streams of cases, both on the real Game mode of a real machine:
+* kind "game" (fake-game scaffolding: playfield.add_ball stubbed, num_balls_known set): 1-4 players, balls_per_game 1-4 as a
+  TEMPLATE (machine variable) that may change during the game, requests injected from handlers of every lifecycle event (above or
+  below the game's own handlers, optionally only while a given player is up), from inside queue events whose clear is delayed, and
+  between events: end_ball, end_game, slam (flag + end_ball), balls_in_play = n (also out of range), ball_drain relay posts (also
+  with more balls than are in play), extra balls, player-add requests (vetoed by a player_add_request handler or not), restart
+  (mode stopped, game_start when it has stopped).
+* kind "world" (harness/common/gameworld_c06.py): a REAL trough -> plunger -> playfield (balls as tokens, switches through
+  process_switch, coil pulses intercepted), the real ball controller, a ball_saves device (1/2/unlimited saves, timer, hurry-up,
+  grace period, early save, only_last_ball), a multiballs device (total/add, shoot again, add-a-ball), the REAL tilt mode (warning
+  / tilt / slam-tilt switches), wait_for_empty_playfields_on_ball_start on or off, the start button for player adds.  balls_in_play
+  is driven by the real ball_drain relay (trough -> ball controller -> ball save / multiball handlers -> Game.ball_drained), by
+  the multiball's adds, by playfield.add_ball of a ball the game does not count and by balls MPF did not know about.
+Every lifecycle post (with current player and ball) and every request that took effect - logged by wrappers of Game.end_ball /
+end_game / balls_in_play / ball_drained / request_player_add / mode_stop and of Tilt.tilt / tilt_warning / slam_tilt /
+reset_warnings / _tilt_done - is replayed on the Lean model (MpfVerif.Model.Game: the coroutine as a resumable state machine; one
+`resume` per lifecycle post; not-enabled = disagreement); balls_in_play, num_players, ending, tilted, slam_tilted, the end-of-ball
+event, the current player's tilt warnings and num_balls_known are compared after every step.
+Oracle (model independent): a recursive-descent recogniser of the lifecycle grammar + the numeric clauses of the property on the
+real trace of every game played (also the restarted one and the game after the requests).
 """
+import sys
+
 from harness.common import leanproc
+from harness.common import gameworld_c06 as gw
 from harness.common.shrink import ddmin
 from harness.common.util import InfraError
 
@@ -19,26 +33,44 @@ LEAN_MODULES = ["MpfVerif.Props.C06"]
 PROPS_FILE = "MpfVerif/Props/C06.lean"
 GEN = []
 MANIFEST = {
-  "text": "Proof on a Lean model of the coroutine Game._run as a resumable state machine (one pc per awaited lifecycle event; players, current player, per-player ball and extra-ball counts, balls_in_play with its clamping setter, ending, slam tilt, the end-of-ball event) with environment requests (end_ball, end_game, slam tilt, balls_in_play = n, drain, extra ball, player add) arriving at any pc and every resumption an input: for ALL op sequences the emitted lifecycle trace starts with game_will_start and every adjacent pair of events is one the lifecycle grammar allows (game_will_start game_starting game_started turn* game_will_end game_ending game_ended, turn = player_turn_will_start/starting/started ball* player_turn_will_end/ending/ended, ball = ball_will_start/starting/started ball_will_end/ending/ended), the pc is always the last event emitted, 0 <= balls_in_play <= num_balls_known, once end_game has been accepted no further ball_will_start is emitted and ending stays set until game_ended, ball_will_end is only emitted when the end-of-ball event is set, after game_ended the game slot is empty and start is enabled again, and the player rotates 1..n. The model is tied to mpf/modes/game/code/game.py on every check: the real Game mode runs generated request schedules, every lifecycle post and effective request is replayed on the Lean driver (not-enabled = disagreement) and event, player, ball, balls_in_play, num_players, ending are compared step by step; an independent recursive-descent recogniser checks the grammar and the numeric clauses (player rotation, ball numbers, one ball plus one per extra ball, ball ends iff balls_in_play hits zero or an end was requested, bounds, clean end, restartable) on the real trace.",
-  "note": "Trusted: Lean kernel + {propext, Classical.choice, Quot.sound}; the hand-written model Model/Game.lean (validated only by the differential runs); the event bus and asyncio are not modelled (when a posted event completes is an input); player add is modelled as immediate; ball devices, ball saves and the playfield are outside (fake-game scaffolding). A slam tilt arriving before a ball has started does not prevent that ball (not claimed).",
-  "technique": "Lean 4 theorems (invariants by induction over op sequences) on a hand model + step-replaying differential correspondence with the real Game mode + independent grammar recogniser",
+  "text": "Proof on a Lean model of the coroutine Game._run as a resumable state machine (one pc per awaited lifecycle event; players, current player, per-player ball and extra-ball counts, balls_in_play with its clamping setter, ending, slam tilt, tilted, the end-of-ball event, per-player tilt warnings) with environment requests arriving at any pc and every resumption an input: end_ball, end_game, balls_in_play = n, drain n (also more balls than are in play), extra ball, player add (accepted / refused / vetoed by a player_add_request handler), the real tilt mode's tilt / slam_tilt / tilt_warning / reset_warnings / tilt clear, a stop of the game mode from outside (restart), a growing num_balls_known, and balls_per_game / max_players templates evaluated when a game begins. For ALL op sequences: the emitted lifecycle trace starts with game_will_start and every adjacent pair of events is one the lifecycle grammar allows (game_will_start game_starting [game_started turn*] game_will_end game_ending game_ended, turn = player_turn_will_start/starting/started ball* player_turn_will_end/ending/ended, ball = ball_will_start/starting/started ball_will_end/ending/ended; a stop from outside is the pseudo event `aborted`, after which only game_will_start follows), the pc is always the last event emitted, 0 <= balls_in_play <= num_balls_known (as known at that moment), once end_game has been accepted no further ball_will_start is emitted and ending stays set, ball_will_end is only emitted when the end-of-ball event is set, which only end_ball / end_game / slam / an effective tilt / balls_in_play going from >0 to 0 set; a drain of at least balls_in_play balls (also MORE) takes it to exactly 0 and the ball ends; after game_ended (or a stop from outside) the game slot is empty and start is enabled again; the player rotates 1..n; no ball number exceeds the balls_per_game evaluated at game start (which no step of a running game changes); one ball per turn plus one per extra ball; a slam tilt is final (the flag survives every step and the running turn is the last); the tilt mode never touches trace, pc, balls_in_play or roster; the warnings_to_tilt-th warning tilts; a vetoed add leaves roster and trace as they were; end_game while waiting for the first player ends the game. The model is tied to mpf/modes/game/code/game.py, mpf/core/async_mode.py and mpf/modes/tilt/code/tilt.py on every check: the real Game mode runs generated request schedules on a fake-game scaffold AND inside a physical world with the real trough/plunger/playfield, ball controller, ball_saves, multiballs and tilt mode; every lifecycle post and effective request is replayed on the Lean driver (not-enabled = disagreement) and event, player, ball, balls_in_play, num_players, ending, tilted, slam_tilted, end-of-ball event, tilt warnings, num_balls_known are compared step by step; an independent recursive-descent recogniser checks the grammar and the numeric clauses (player rotation, ball numbers, one ball plus one per extra ball, a ball ends iff - and in the same instant as - balls_in_play hits zero or an end is requested, bounds, clean end, restartable) on the real trace of every game.",
+  "note": "Trusted: Lean kernel + {propext, Classical.choice, Quot.sound}; the hand-written model Model/Game.lean (validated only by the differential runs); harness/common/gameworld_c06.py (world simulator, cut down from ballworld.py: every eject physically succeeds); the event bus and asyncio are not modelled (when a posted event completes is an input); ball devices, ball_saves and multiballs are NOT modelled: what they do reaches the model as the effective drain count / balls_in_play assignment the game receives (logged at Game.ball_drained and the balls_in_play setter); the tilt mode is modelled as far as it acts on the game (tilted, slam_tilted, end_ball, warnings), not its ball collection and settle timer (when tilt_clear happens is an input). Not claimed / observations: a slam tilt or tilt before a ball has started does not prevent that ball; a tilt that arrives while the ball is ending stays set through the whole next ball (witness theorem); Tilt._ball_ending_tilted called after _tilt_done already ran with _balls_to_collect < 0 never releases ball_ending (counted as observation, not failed); Multiball._ball_drain_shoot_again raises AttributeError when a ball drains after the game has ended (counted). Real ball devices report drains ball by ball: a relay with more balls than are in play is generated by posting the real ball_drain relay itself.",
+  "technique": "Lean 4 theorems (invariants by induction over op sequences) on a hand model + step-replaying differential correspondence with the real Game/Tilt modes on a fake-game scaffold and in a simulated physical world with the real ball devices + independent grammar recogniser",
   "translated": False,
  }
-RULE = ("cases: balls_per_game 1-4, max_players 1-4, num_balls_known 1-3; 0-5 hooks on lifecycle events (priority above / below "
-        "the game's handlers, each firing once or twice) and 2-10 top-level requests: end_ball, end_game, slam, balls_in_play "
-        "= n in -1..5, drain 0..3, extra ball, add player, queue delay of 1-9 ticks on the six queue events, advance. "
-        "every game is driven to its end (drains) and a second game is started. non-trivial = a request arrived inside a "
-        "lifecycle handler or more than one player / an extra ball / an end request occurred. distinct = canonical JSON")
+RULE = ("two interleaved streams. kind game: balls_per_game 1-4 (template, may be changed by a request), max_players 1-4, "
+        "num_balls_known 1-3; 0-6 hooks on lifecycle events (priority above / below the game's handlers, each firing once or "
+        "twice, optionally only while player k is up; extra: end_game inside a queue event of player 2/3) and 2-10 top-level "
+        "requests: end_ball, end_game, slam, balls_in_play = n in -1..5, ball_drain relay 0..3, extra ball, add player, "
+        "balls_per_game := n, restart, queue delay of 1-9 ticks on the six queue events, advance; in 30% a handler vetoes some of "
+        "the first four player_add_requests. kind world: trough with 2-4 balls, ball save (1/2/unlimited, 0-10 s, hurry-up, grace, "
+        "auto-enable or not, only_last_ball), multiball (total/add 2-3 balls, shoot again 0-5 s), tilt (1-3 warnings, settle 0-2 "
+        "s), wait_for_empty_playfields on/off, physical timings, 0-4 hooks and 3-13 requests: 1 / several / all loose balls roll "
+        "into the trough, ball_drain relay with 1-3 balls, a ball MPF does not know appears, playfield.add_ball, multiball start / "
+        "add-a-ball / stop, ball save on / early / off, tilt-warning / tilt / slam-tilt switch, start button, end_ball / end_game "
+        "events, extra ball, restart, advance 0.125-10 s. every game is driven to its end (drains; world: every loose ball rolls "
+        "home, ball save and multiball off; last resort an end_game request, counted), a second game is started and, after a "
+        "restart or a template change, played to its end. non-trivial = a request arrived inside a lifecycle handler or more than "
+        "one player / an extra ball / an end request / a tilt / a veto / a restart occurred, or (world) a ball drained. distinct = "
+        "canonical JSON")
 TRUSTED = [
     "modelled, not verified: the event bus and asyncio (each lifecycle post is one resume of the model; when it happens is "
-    "taken from the implementation); player_add_request is granted at once (no vetoing handler)",
-    "Model/Game.lean is hand-written; tied to mpf/modes/game/code/game.py by correspondence on every run",
+    "taken from the implementation)",
+    "not modelled: ball devices, ball controller, ball_saves, multiballs (their effect reaches the model as the drain count / "
+    "balls_in_play assignment the game receives); the tilt mode's ball collection and settle timer (tilt clear is an input)",
+    "harness/common/gameworld_c06.py: physical-world simulator (hand-written, cut down from ballworld.py; every eject succeeds)",
+    "Model/Game.lean is hand-written; tied to mpf/modes/game/code/game.py, mpf/core/async_mode.py, mpf/modes/tilt/code/tilt.py by "
+    "correspondence on every run",
 ]
-ASSUMPTIONS = ["no handler vetoes player_add_request; no ball devices / ball save / ball search (fake-game scaffolding)",
-               "handlers of lifecycle events do not raise"]
+ASSUMPTIONS = ["handlers of lifecycle events do not raise; every queue wait is eventually cleared",
+               "num_balls_known only grows during a case (no ball is written off: every eject of the simulated world succeeds)",
+               "no ball search, no ball locks, no mechanical / player-controlled eject; one playfield",
+               "a stop of the game mode from outside is followed by game_start only once the mode has stopped"]
 
 KNOWN_SIGS = ()
 GRID = 0.125
+WARN_TO_FAKE = 3
+ANCHOR_FILES = ("modes/game/code/game.py", "core/async_mode.py", "core/player.py", "modes/tilt/code/tilt.py", "modes/attract/code/attract.py")
 LIFE = ["game_will_start", "game_starting", "game_started", "player_turn_will_start", "player_turn_starting",
         "player_turn_started", "ball_will_start", "ball_starting", "ball_started", "ball_will_end", "ball_ending",
         "ball_ended", "player_turn_will_end", "player_turn_ending", "player_turn_ended", "game_will_end", "game_ending",
@@ -49,8 +81,13 @@ switches:
   s_start:
     number: 1
     tags: start
+machine_vars:
+  c06_bpg:
+    initial_value: %d
+    value_type: int
+    persist: false
 game:
-  balls_per_game: %d
+  balls_per_game: machine.c06_bpg
   max_players: %d
 """
 
@@ -93,32 +130,154 @@ def _install():
             r.env("addaccepted" if res else "addrejected")
         return res
 
-    def _player_add_request_complete(self, ev_result=True, **kwargs):
+    def _player_add_request_complete_v(self, ev_result=True, **kwargs):
         r = Rec.cur
         res = o_done(self, ev_result=ev_result, **kwargs)
-        if r is not None and res:
-            r.env("playeradded")
+        if r is not None:
+            r.env("playeradded" if res else "addvetoed")
         return res
     G.request_player_add = request_player_add
-    G._player_add_request_complete = _player_add_request_complete
+    G._player_add_request_complete = _player_add_request_complete_v
+    # requests that reach the game through real handlers (events, switches, devices) are logged where they take effect
+    o_end_ball, o_end_game, o_mode_stop = G.end_ball, G.end_game, G.mode_stop
+    bip_prop = G.__dict__["balls_in_play"]
+
+    def end_ball(self):
+        r = Rec.cur
+        res = o_end_ball(self)
+        if r is not None and not r.quiet and r.machine.game is self:
+            r.env("endball")
+        return res
+
+    def end_game(self):
+        r = Rec.cur
+        if r is None or r.quiet or r.machine.game is not self:
+            return o_end_game(self)
+        r.quiet += 1
+        try:
+            res = o_end_game(self)
+        finally:
+            r.quiet -= 1
+        r.env("endgame")
+        return res
+
+    def set_bip(self, value):
+        r = Rec.cur
+        bip_prop.fset(self, value)
+        if r is not None and not r.quiet and r.machine.game is self and \
+                sys._getframe(1).f_code.co_name not in ("ball_drained", "_start_ball"):
+            r.env("setbip %d" % value)
+
+    def mode_stop(self, **kwargs):
+        r = Rec.cur
+        if r is not None and r.machine.game is self and r.last_life != "game_ended":
+            r.env("abort")
+        return o_mode_stop(self, **kwargs)
+    G.end_ball, G.end_game, G.mode_stop = end_ball, end_game, mode_stop
+    G.balls_in_play = property(bip_prop.fget, set_bip)
+
+    from mpf.modes.tilt.code import tilt as tmod
+    T = tmod.Tilt
+
+    def wrap_tilt(name, tag):
+        orig = getattr(T, name)
+
+        def f(self, **kwargs):
+            r = Rec.cur
+            if r is None or r.quiet or not self.machine.game:
+                return orig(self, **kwargs)
+            r.quiet += 1
+            try:
+                res = orig(self, **kwargs)
+            finally:
+                r.quiet -= 1
+            r.env(tag)
+            return res
+        setattr(T, name, f)
+    for nm, tg in (("tilt", "tilt"), ("tilt_warning", "tiltwarn"), ("slam_tilt", "slamtilt"), ("reset_warnings", "warnreset")):
+        wrap_tilt(nm, tg)
+    o_tdone = T._tilt_done
+
+    def _tilt_done(self):
+        r = Rec.cur
+        g = self.machine.game
+        before = bool(g and g.tilted)
+        res = o_tdone(self)
+        if r is not None and before and self.machine.game is g and not g.tilted:
+            r.env("tiltclear")
+        return res
+    T._tilt_done = _tilt_done
 
 
 class Real:
-    def __init__(self, vm, case):
-        self.vm, self.case = vm, case
-        self.machine = vm.machine
+    """one real machine (fake-game scaffolding, or the physical world of harness/common/gameworld_c06.py) + the log L:
+    ("cfg", balls_per_game, max_players, warnings_to_tilt, known) before every game_will_start,
+    ("ev", event, player, ball, snap), ("env", request, snap, in_handler, player), ("q", snap), ("second",)"""
+
+    def __init__(self, case):
+        self.case = case
+        self.world = case["kind"] == "world"
         self.life = set(LIFE)
         self.L = []
         self.deadlines = set()
         self.runs = {}
         self.hooks_off = False
         self.in_handler = 0
+        self.quiet = 0
+        self.last_life = None
+        self.last_known = None
+        self.bpg_now = case["bpg"]
+        self.adds_seen = 0
+        self.counts = {}
+        self.forced = False
+        self.over = self.restarted = False
+        self.second_full = False
+        self.crash_in_anchor = True
+        self.crash_tb = ""
+        self.start_accepted = 0
+        self.tilt_holds = False
+        self.run_ = None
+        self.vm = None
+
+    def boot(self):
+        from harness.common.vmachine import VMachine
+        if self.world:
+            self.run_ = gw.Run(self.case, {k: int(v) * gw.GRID for k, v in self.case["timing"].items()})
+            self.vm = self.run_.vm
+            self.run_.start()
+        else:
+            self.vm = VMachine(CONFIG % (self.case["bpg"], self.case["maxp"]), game=True).start()
+        self.machine = self.vm.machine
+
+    def stop(self):
+        if self.vm is not None:
+            self.vm.stop()
+
+    def count(self, k):
+        self.counts[k] = self.counts.get(k, 0) + 1
+
+    def advance(self, units):
+        """units of GRID (1/8 s)"""
+        if self.world:
+            self.run_.advance(GRID * units)
+        else:
+            self.vm.advance(GRID * units)
 
     def snap(self):
         g = self.machine.game
         if not g:
             return None
-        return (g.balls_in_play, g.num_players, 1 if g.ending else 0)
+        p = g.player
+        ev = g._end_ball_event
+        return (g.balls_in_play, g.num_players, 1 if g.ending else 0, 1 if g.tilted else 0, 1 if g.slam_tilted else 0,
+                1 if (ev is not None and ev.is_set()) else 0, (p.vars.get("tilt_warnings", 0) if p else 0),
+                self.machine.ball_controller.num_balls_known)
+
+    def _known_check(self):
+        k = self.machine.ball_controller.num_balls_known
+        if self.last_known is not None and k != self.last_known and self.machine.game:
+            self.last_known = k
+            self.L.append(("env", "known %d" % k, self.snap(), self.in_handler > 0, 0, self.vm.now()))
 
     def posted(self, event):
         g = self.machine.game
@@ -144,13 +303,20 @@ class Real:
                     self._log()
                     super().clear()
             g._at_least_one_player_event = LoggedEvent()
+            self.last_known = self.machine.ball_controller.num_balls_known
+            warn_to = self.case["tilt"]["warn"] if self.world else WARN_TO_FAKE
+            self.L.append(("cfg", self.bpg_now, self.case["maxp"], warn_to, self.last_known))
+        else:
+            self._known_check()
         p = g.player if g else None
-        self.L.append(("ev", event, p.number if p else 0, p.ball if p else 0, self.snap()))
+        self.last_life = event
+        self.L.append(("ev", event, p.number if p else 0, p.ball if p else 0, self.snap(), self.vm.now()))
 
     def env(self, what):
+        self._known_check()
         g = self.machine.game
         p = g.player if g else None
-        self.L.append(("env", what, self.snap(), self.in_handler > 0, p.number if p else 0))
+        self.L.append(("env", what, self.snap(), self.in_handler > 0, p.number if p else 0, self.vm.now()))
 
     def deadline(self, ticks):
         t = round(self.vm.now() / GRID) + max(1, ticks)
@@ -159,16 +325,29 @@ class Real:
         self.deadlines.add(t)
         return t * GRID - self.vm.now()
 
+    def switch_hit(self, name):
+        self.vm.hit_switch(name, 1)
+        self.vm.hit_switch(name, 0)
+
     def act(self, a, queue=None):
         g = self.machine.game
+        m = self.machine
         k = a[0]
         if k == "adv":
-            self.vm.advance(GRID * a[1])
+            if not self.in_handler:
+                self.advance(a[1])
             return
         if k == "wait":
             if queue is not None:
                 queue.wait()
                 self.machine.delay.add(ms=self.deadline(a[1]) * 1000, callback=queue.clear)
+            return
+        if k == "setbpg":
+            m.variables.set_machine_var("c06_bpg", a[1])
+            self.bpg_now = a[1]
+            self.second_full = True
+            return
+        if self.world and self.act_world(a):
             return
         if k == "drain":
             self.machine.events.post_relay("ball_drain", balls=a[1])    # logged when Game.ball_drained really runs
@@ -176,31 +355,72 @@ class Real:
         if not g:
             return
         if k == "endball":
-            g.end_ball()
-            self.env("endball")
+            g.end_ball()                # logged by the wrappers of Game.end_ball / end_game / balls_in_play
         elif k == "endgame":
             g.end_game()
-            self.env("endgame")
         elif k == "slam":
-            g.slam_tilted = True
-            g.end_ball()
+            self.quiet += 1
+            try:
+                g.slam_tilted = True
+                g.end_ball()
+            finally:
+                self.quiet -= 1
             self.env("slam")
         elif k == "setbip":
             g.balls_in_play = a[1]
-            self.env("setbip %d" % a[1])
         elif k == "extraball":
             if g.player:
                 g.player.extra_balls += 1
                 self.env("extraball")
         elif k == "addplayer":
-            g.request_player_add()      # logged by the wrappers: accepted / rejected now, player added later
+            g.request_player_add()      # logged by the wrappers: accepted / rejected now, player added / vetoed later
+        elif k == "restart":
+            # the game mode is stopped from outside (as service mode does) and a new game is started as soon as it has stopped
+            self.second_full = True
+            self.L.append(("env", "restartreq", self.snap(), self.in_handler > 0, 0, self.vm.now()))
+            g.stop(callback=lambda: m.events.post("game_start"))
         else:
             raise InfraError("bad act %r" % (a,))
+
+    def act_world(self, a):
+        """requests that go through the real devices; True = handled"""
+        m, w, k = self.machine, self.run_.world, a[0]
+        g = m.game
+        if k == "drain":
+            n = w.drain(a[1])
+            self.count("world_drain_%d" % n)
+        elif k == "rdrain":
+            # the relay itself with a count the real devices never report at once (they report ball by ball): custom code / another
+            # platform posting ball_drain for several balls; the real ball_save / multiball handlers are in the chain
+            m.events.post_relay("ball_drain", balls=a[1])
+            self.count("world_relay_drain_%d" % a[1])
+        elif k == "newball":
+            self.count("world_newball" if w.new_ball() else "world_newball_noop")
+        elif k == "pfadd":
+            if g and m.playfield.available_balls + 1 <= m.ball_controller.num_balls_known:
+                m.playfield.add_ball(1)
+                self.count("world_pfadd")
+        elif k in ("mbstart", "mbadd", "mbstop", "saveon", "saveearly", "saveoff"):
+            if g:
+                m.events.post({"mbstart": "ev_mb_start", "mbadd": "ev_mb_add", "mbstop": "ev_mb_stop", "saveon": "ev_save_on",
+                               "saveearly": "ev_save_early", "saveoff": "ev_save_off"}[k])
+        elif k in ("tiltwarn", "tilt", "slamtilt"):
+            self.switch_hit({"tiltwarn": "s_tilt_warning", "tilt": "s_tilt", "slamtilt": "s_slam_tilt"}[k])
+        elif k == "start":
+            self.switch_hit("s_start")
+        elif k in ("endball", "endgame") and not self.in_handler:
+            m.events.post("end_ball" if k == "endball" else "end_game")
+        else:
+            return False
+        return True
 
     def install_hooks(self):
         for i, h in enumerate(self.case["hooks"]):
             def handler(_h=h, _i=i, **kwargs):
                 if self.hooks_off or self.runs.get(_i, 0) >= _h["max"]:
+                    return
+                g = self.machine.game
+                if _h.get("player") and not (g and g.player and g.player.number == _h["player"]):
                     return
                 self.runs[_i] = self.runs.get(_i, 0) + 1
                 self.in_handler += 1
@@ -210,69 +430,131 @@ class Real:
                 finally:
                     self.in_handler -= 1
             self.machine.events.add_handler(h["event"], handler, h["prio"])
+        veto = list(self.case.get("veto", []))
+
+        def add_request(**kwargs):
+            self.adds_seen += 1
+            if self.adds_seen <= len(veto) and veto[self.adds_seen - 1]:
+                return False
+            return None
+        if veto:
+            self.machine.events.add_handler("player_add_request", add_request, 5)
 
     def start_game(self):
         self.vm.hit_switch("s_start", 1)
         self.vm.run()
         self.vm.hit_switch("s_start", 0)
-        self.vm.advance(GRID * 8)
+        self.advance(8)
 
     def finish_game(self):
-        """drain until the game is over (bounded)"""
+        """drive the game to its end (bounded): drains; in the world: ball save and multiball off, every loose ball rolls
+        into the trough; last resort (counted): an end_game request"""
+        def first_player():
+            # a game whose first player was vetoed waits (for ever) for another add request: make one
+            g = self.machine.game
+            if g and not g.player_list and g._at_least_one_player_event is not None and self.last_life == "game_starting":
+                self.count("finish_adds_first_player")
+                g.request_player_add()
+        if self.world:
+            w = self.run_.world
+            for i in range(70):
+                if not self.machine.game:
+                    return True
+                first_player()
+                if i % 8 == 0:
+                    self.machine.events.post("ev_save_off")
+                    self.machine.events.post("ev_mb_stop")
+                if i == 60:
+                    self.forced = True
+                    self.machine.events.post("end_game")
+                if w.loose:
+                    w.drain(len(w.loose))
+                self.advance(24)
+            # observation, not C06's business: the tilt mode's own ball_ending handler never releases the queue event
+            # (Tilt._ball_ending_tilted called after _tilt_done has already run, with _balls_to_collect < 0)
+            self.tilt_holds = self.last_life == "ball_ending" and self.machine.modes["tilt"].ball_ending_tilted_queue is not None
+            return False
         for _ in range(80):
             g = self.machine.game
             if not g:
                 return True
+            first_player()
             if g.balls_in_play > 0:
                 self.act(["drain", g.balls_in_play])
             self.vm.advance(GRID * 12)
         return False
+
+    def all_home(self):
+        """let every ball come home (the ball controller refuses a game start while balls are under way)"""
+        w = self.run_.world
+        for _ in range(12):
+            if w.loose:
+                w.drain(len(w.loose))
+            self.advance(24)
+            if not w.loose and not w.moving() and not w.occupancy("plunger"):
+                break
 
     def run(self):
         crash = None
         Rec.cur = self
         try:
             m = self.machine
-
-            def _add_ball(**kwargs):      # no ball devices: the playfield stays empty, balls_in_play is the game's own count
-                pass
-            m.playfield.add_ball = _add_ball
-            m.ball_controller.num_balls_known = self.case["known"]
+            if not self.world:
+                def _add_ball(**kwargs):      # no ball devices: the playfield stays empty, balls_in_play is the game's own count
+                    pass
+                m.playfield.add_ball = _add_ball
+                m.ball_controller.num_balls_known = self.case["known"]
+            else:
+                self.advance(8)
             self.install_hooks()
             self.vm.align()
             self.start_game()
             for op in self.case["ops"]:
                 self.act(op)
-                self.vm.advance(GRID)
+                self.advance(1)
             self.over = self.finish_game()
             self.L.append(("q", self.snap()))
             self.hooks_off = True
             self.L.append(("second",))
+            if self.world:
+                self.all_home()
+
+            def accepted(**kwargs):
+                self.start_accepted += 1
+            m.events.add_handler("game_start", accepted, 5)
             self.start_game()
             self.restarted = self.machine.game is not None
+            if self.second_full:
+                self.over2 = self.finish_game()
             self.L.append(("q", self.snap()))
         except InfraError:
             raise
         except Exception as e:
+            import traceback
             crash = "%s: %s" % (type(e).__name__, str(e)[:300])
+            tb = traceback.format_exc()
+            # EventHandlerException does not chain the handler's traceback: the handler is named in its message
+            self.crash_in_anchor = any(f in tb for f in ANCHOR_FILES) or \
+                any(("<bound method %s." % c) in str(e) for c in ("Game", "Tilt", "Attract", "Player", "AsyncMode"))
+            self.crash_tb = tb[-1500:]
         finally:
             Rec.cur = None
         return crash
 
 
 def run_real(case):
-    from harness.common.vmachine import VMachine, BootError
+    from harness.common.vmachine import BootError
     _install()
+    real = Real(case)
     try:
-        vm = VMachine(CONFIG % (case["bpg"], case["maxp"]), game=True).start()
-    except BootError as e:
-        return None, "boot: " + str(e)[:300]
-    try:
-        real = Real(vm, case)
+        try:
+            real.boot()
+        except BootError as e:
+            return None, "boot: " + str(e)[:300]
         crash = real.run()
         return real, crash
     finally:
-        vm.stop()
+        real.stop()
 
 
 # ---------------------------------------------------------------------------------------------------------------------
@@ -284,9 +566,11 @@ class Reject(Exception):
 
 
 class Parser:
-    def __init__(self, case, items):
-        self.case = case
-        self.items = items       # ("ev", name, player, ball, snap) | ("env", what, snap, in_handler)
+    """one game: items from its game_will_start up to the next game's cfg record"""
+
+    def __init__(self, bpg, items):
+        self.bpg = bpg
+        self.items = items       # ("ev", name, player, ball, snap) | ("env", what, snap, in_handler, player)
         self.i = 0
         self.ball_of = {}
         self.extra = {}
@@ -294,37 +578,54 @@ class Parser:
         self.slam = False
         self.trigger = False     # a reason for the current ball to end exists
         self.bip = 0
-        self.in_ball_wait = False
+        self.tilted = 0
         self.cur = 0
         self.players = 0
         self.start_checked = False
         self.end_req_at_check = False
+        self.in_ball = False
+        self.trigger_t = None    # when the first reason for the ball in play to end appeared
+
+    def reason(self, t):
+        if not self.trigger and self.in_ball and self.trigger_t is None:
+            self.trigger_t = t
+        self.trigger = True
+
+    def see(self, snap, what, t=None):
+        """bounds + the reasons for a ball to end that show in the game's public state"""
+        if snap is None:
+            return
+        if not 0 <= snap[0] <= snap[7]:
+            raise Reject("bip-out-of-bounds", {"balls_in_play": snap[0], "num_balls_known": snap[7], "at": what})
+        if self.bip > 0 and snap[0] == 0:
+            self.reason(t)               # balls in play reached zero
+        if not self.tilted and snap[3]:
+            self.reason(t)               # the tilt mode has tilted the game: it requests the end of the ball
+        self.bip = snap[0]
+        self.tilted = snap[3]
+        self.players = snap[1]
 
     def envs(self):
         """consume requests between lifecycle events, tracking what they mean for the numeric clauses"""
         while self.i < len(self.items) and self.items[self.i][0] == "env":
-            _, what, snap, _, curnum = self.items[self.i]
+            _, what, snap, _, curnum, t = self.items[self.i]
             w = what.split()
-            if snap is not None:
-                if not 0 <= snap[0] <= self.case["known"]:
-                    raise Reject("bip-out-of-bounds", {"balls_in_play": snap[0], "after": what})
-                if self.bip > 0 and snap[0] == 0:
-                    self.trigger = True
-                self.bip = snap[0]
-                self.players = snap[1]
+            self.see(snap, what, t)
             if w[0] == "startcheck":
                 self.start_checked = True
                 if self.end_req:
                     raise Reject("game-started-after-end-request", {"at": "start check"})
             if w[0] == "endball":
-                self.trigger = True
+                self.reason(t)
             elif w[0] == "endgame":
-                self.trigger = True
+                self.reason(t)
                 self.end_req = True
                 if not self.start_checked:
                     self.end_req_at_check = True
             elif w[0] == "slam":
-                self.trigger = True
+                self.reason(t)
+                self.slam = True
+            elif w[0] == "slamtilt":
                 self.slam = True
             elif w[0] == "extraball" and curnum:
                 self.extra[curnum] = self.extra.get(curnum, 0) + 1
@@ -333,7 +634,10 @@ class Parser:
     def expect(self, name, player=None, ball=None):
         self.envs()
         if self.i >= len(self.items):
-            raise Reject("trace-incomplete", {"expected": name, "trace_tail": [x[1] for x in self.items[-6:]]})
+            sig = "trace-incomplete"
+            if self.in_ball and name == "ball_will_end" and self.trigger:
+                sig = "ball-not-ended-despite-reason"
+            raise Reject(sig, {"expected": name, "balls_in_play": self.bip, "trace_tail": [x[1] for x in self.items[-6:]]})
         it = self.items[self.i]
         if it[1] != name:
             sig = "grammar"
@@ -342,13 +646,10 @@ class Parser:
             raise Reject(sig, {"expected": name, "got": it[1], "at": self.i, "before": [x[1] for x in self.items[max(0, self.i - 5):self.i]]})
         if player is not None and (it[2], it[3]) != (player, ball):
             raise Reject("numbers", {"event": name, "expected": [player, ball], "got": [it[2], it[3]]})
-        if it[4] is not None and not 0 <= it[4][0] <= self.case["known"]:
-            raise Reject("bip-out-of-bounds", {"balls_in_play": it[4][0], "at": name})
-        if it[4] is not None:
-            if self.bip > 0 and it[4][0] == 0:
-                self.trigger = True
-            self.bip = it[4][0]
-            self.players = it[4][1]
+        if name == "ball_will_end" and self.in_ball and self.trigger_t is not None and it[5] > self.trigger_t + GRID:
+            # "a ball ends exactly when ...": the coroutine is woken in the same instant
+            raise Reject("ball-not-ended-despite-reason", {"reason_at": self.trigger_t, "ball_will_end_at": it[5], "balls_in_play": self.bip})
+        self.see(it[4], name, it[5])
         self.i += 1
         return it
 
@@ -363,13 +664,18 @@ class Parser:
         if not self.start_checked:
             # end_game() before _start_game looked at `ending`: the game ends without having started (no player needed)
             if not self.end_req_at_check:
-                raise Reject("game-start-abandoned-without-end-request", {"next": nx})
+                raise Reject("game-start-abandoned-without-end-request" if nx is not None else "trace-incomplete", {"next": nx})
             if nx != "game_will_end":
-                raise Reject("game-started-after-end-request", {"next": nx})
+                raise Reject("game-started-after-end-request" if nx is not None else "trace-incomplete", {"next": nx})
         else:
-            self.expect("game_started", 1, 0)
-            while self.peek() == "player_turn_will_start":
-                self.turn()
+            if nx is None and self.end_req and self.players == 0:
+                raise Reject("game-never-ends:end-request-while-waiting-for-first-player", {"trace_tail": [x[1] for x in self.items[-6:]]})
+            if nx == "game_will_end" and self.end_req and self.players == 0:
+                pass        # ended while waiting for the first player: the game ends without having started
+            else:
+                self.expect("game_started", 1, 0)
+                while self.peek() == "player_turn_will_start":
+                    self.turn()
         self.expect("game_will_end")
         self.expect("game_ending")
         self.expect("game_ended")
@@ -383,8 +689,8 @@ class Parser:
             raise Reject("turn-after-end-request", {"at": self.i})
         p, b0 = nxt, self.ball_of.get(nxt, 0)
         b = b0 + 1          # the ball number counts from the beginning of the turn
-        if b > self.case["bpg"]:
-            raise Reject("ball-number-exceeds-balls-per-game", {"player": p, "ball": b, "balls_per_game": self.case["bpg"]})
+        if b > self.bpg:
+            raise Reject("ball-number-exceeds-balls-per-game", {"player": p, "ball": b, "balls_per_game": self.bpg})
         self.ball_of[p] = b
         self.expect("player_turn_will_start", p, b)
         self.cur = p
@@ -406,13 +712,14 @@ class Parser:
                 first = False
             else:
                 if want_ball:
-                    raise Reject("ball-missing", {"player": p, "ball": b, "first": first, "extra": self.extra.get(p, 0), "next": nx})
+                    raise Reject("ball-missing" if nx is not None else "trace-incomplete",
+                                 {"player": p, "ball": b, "first": first, "extra": self.extra.get(p, 0), "next": nx})
                 break
         self.expect("player_turn_will_end", p, b)
         self.expect("player_turn_ending", p, b)
         self.expect("player_turn_ended", p, b)
         nx = self.peek()     # consumes the requests made in player_turn_ended handlers (a player may have been added)
-        last = self.slam or (b >= self.case["bpg"] and p == self.players)
+        last = self.slam or (b >= self.bpg and p == self.players)
         if (last or self.end_req) and nx == "player_turn_will_start":
             raise Reject("turn-after-last-ball", {"player": p, "ball": b})
         if not (last or self.end_req) and nx == "game_will_end":
@@ -424,36 +731,80 @@ class Parser:
         self.expect("ball_will_start", p, b)
         self.expect("ball_starting", p, b)
         it = self.expect("ball_started", p, b)
-        if it[4][0] != min(1, self.case["known"]):
+        if it[4][0] != min(1, it[4][7]):
             raise Reject("bip-at-ball-start", {"balls_in_play": it[4][0]})
+        self.in_ball = True
+        self.trigger_t = None
         self.envs()
         if self.peek() == "ball_will_end" and not self.trigger:
             raise Reject("ball-ended-without-reason", {"player": p, "ball": b})
         self.expect("ball_will_end", p, b)
+        self.in_ball = False
         self.expect("ball_ending", p, b)
         self.expect("ball_ended", p, b)
         self.trigger = False
 
 
+def split_games(L):
+    """[(cfg, items, phase)]: phase 0 = while the generated requests ran, 1 = the game started afterwards"""
+    games, phase = [], 0
+    for e in L:
+        if e[0] == "second":
+            phase = 1
+        elif e[0] == "cfg":
+            games.append((e, [], phase))
+        elif e[0] in ("ev", "env") and games:
+            games[-1][1].append(e)
+    return games
+
+
 def oracle(case, real, crash):
+    if real is not None and crash is not None and not real.crash_in_anchor:
+        return None         # an exception out of a device outside the game / tilt / attract / player code: observation (counted)
     if real is None or crash is not None:
-        return "crash", {"error": crash}
+        return "crash", {"error": crash, "traceback": real.crash_tb if real is not None else ""}
     L = real.L
     cut = L.index(("second",))
-    first = [e for e in L[:cut] if e[0] in ("ev", "env")]
     try:
-        if not real.over:
-            raise Reject("game-not-ended", {"trace_tail": [x[1] for x in first][-8:]})
-        ps = Parser(case, first)
-        ps.game()
-        if ps.i != len(first):
-            raise Reject("grammar", {"trailing": [x[1] for x in first[ps.i:ps.i + 5]]})
+        games = split_games(L)
+        first = [g for g in games if g[2] == 0]
+        if not first:
+            raise Reject("game-not-started", {})
+        for n, (cfg, items, phase) in enumerate(games):
+            if phase == 1 and not real.second_full:
+                break
+            ab = [j for j, x in enumerate(items) if x[0] == "env" and x[1] == "abort"]
+            aborted = bool(ab)
+            if aborted:
+                items = items[:ab[0] + 1]       # what a stopped game's pending callbacks still do is not part of its lifecycle
+            if aborted and not any(x[0] == "env" and x[1] == "restartreq" for x in items):
+                raise Reject("game-stopped-without-request", {"game": n, "trace": [x[1] for x in items][-8:]})
+            body = [x for x in (items[:-1] if aborted else items) if not (x[0] == "env" and x[1] == "restartreq")]
+            ps = Parser(cfg[1], body)
+            try:
+                ps.game()
+                if ps.i != len(body):
+                    raise Reject("grammar", {"trailing": [x[1] for x in body[ps.i:ps.i + 5]]})
+                if aborted:
+                    raise Reject("grammar", {"trailing": ["abort after game_ended"]})
+            except Reject as r:
+                if r.sig in ("trace-incomplete", "ball-not-ended-despite-reason") and aborted:
+                    continue            # stopped from outside: every event up to there was in order
+                if r.sig == "trace-incomplete" and real.tilt_holds:
+                    return None     # counted as an observation
+                if r.sig == "trace-incomplete":
+                    raise Reject("game-not-ended", dict(r.detail, game=n, forced_end_request=real.forced))
+                raise
         q = [e for e in L[:cut] if e[0] == "q"][-1]
         if q[1] is not None:
             raise Reject("game-slot-not-empty", {})
         second = [e for e in L[cut:] if e[0] == "ev"]
+        if real.world and not real.start_accepted:
+            return None         # the ball controller (not the game) refused the start request: counted, not C06's business
         if not real.restarted or not second or second[0][1] != "game_will_start":
             raise Reject("not-restartable", {"second": [x[1] for x in second[:4]]})
+        if real.second_full and L[-1][1] is not None:
+            raise Reject("game-slot-not-empty", {"game": "second"})
     except Reject as r:
         return r.sig, r.detail
     return None
@@ -462,53 +813,149 @@ def oracle(case, real, crash):
 def is_nontrivial(real):
     if real is None:
         return False
-    return any(e[0] == "env" and (e[3] or e[1].split()[0] in ("endgame", "slam", "extraball", "playeradded")) for e in real.L)
+    return any(e[0] == "env" and (e[3] or e[1].split()[0] in ("endgame", "slam", "extraball", "playeradded", "tilt", "slamtilt", "tiltwarn",
+                                                                "abort", "addvetoed", "setbip") or
+                                  (real.world and e[1].split()[0] == "drain")) for e in real.L)
 
 
 # ---------------------------------------------------------------------------------------------------------------------
-def gen_case(r):
-    def act():
-        x = r.random()
-        if x < 0.16:
-            return ["endball"]
-        if x < 0.28:
-            return ["endgame"]
-        if x < 0.33:
-            return ["slam"]
-        if x < 0.5:
-            return ["setbip", r.choice([-1, 0, 0, 1, 2, 3, 5])]
-        if x < 0.66:
-            return ["drain", r.choice([0, 1, 1, 2, 3])]
-        if x < 0.82:
-            return ["extraball"]
-        return ["addplayer"]
+def gen_hooks(r, act, n_choices, maxp):
     hooks = []
-    for _ in range(r.choice([0, 1, 2, 2, 3, 4, 5])):
+    for _ in range(r.choice(n_choices)):
         ev = r.choice(LIFE[:-1])        # not game_ended: the coroutine is over, machine.game is about to be cleared
         acts = [act() for _ in range(r.choice([1, 1, 2]))]
         if ev in QUEUE_EVS and r.random() < 0.4:
             acts.insert(r.choice([0, len(acts)]), ["wait", r.choice([1, 2, 5, 9])])
-        hooks.append({"event": ev, "prio": r.choice([1, 1, 100000]), "max": r.choice([1, 1, 2]), "acts": acts})
+        h = {"event": ev, "prio": r.choice([1, 1, 100000]), "max": r.choice([1, 1, 2]), "acts": acts}
+        if maxp > 1 and r.random() < 0.25:
+            h["player"] = r.choice([1, 2, 2, 3])      # fires only while that player is up (e.g. end_game inside ANOTHER player's queue event)
+        hooks.append(h)
+    if maxp > 1 and r.random() < 0.2:
+        # (d) end_game from inside a lifecycle queue event of another player than the first
+        hooks.append({"event": r.choice(QUEUE_EVS[1:5]), "prio": r.choice([1, 100000]), "max": 1, "player": r.choice([2, 2, 3]),
+                      "acts": [["endgame"]] if r.random() < 0.7 else [["wait", r.choice([1, 5])], ["endgame"]]})
+    return hooks
+
+
+def gen_case(r):
+    def act():
+        x = r.random()
+        if x < 0.15:
+            return ["endball"]
+        if x < 0.26:
+            return ["endgame"]
+        if x < 0.31:
+            return ["slam"]
+        if x < 0.47:
+            return ["setbip", r.choice([-1, 0, 0, 1, 2, 3, 5])]
+        if x < 0.62:
+            return ["drain", r.choice([0, 1, 1, 2, 3])]
+        if x < 0.77:
+            return ["extraball"]
+        if x < 0.93:
+            return ["addplayer"]
+        if x < 0.97:
+            return ["setbpg", r.choice([1, 2, 3, 4])]
+        return ["restart"]
+    maxp = r.choice([1, 2, 4])
+    hooks = gen_hooks(r, act, [0, 1, 2, 2, 3, 4, 5], maxp)
     ops = []
     for _ in range(r.randint(2, 10)):
         ops.append(act() if r.random() < 0.75 else ["adv", r.choice([1, 4, 12])])
-    return {"kind": "game", "bpg": r.choice([1, 2, 3, 3, 4]), "maxp": r.choice([1, 2, 4]), "known": r.choice([1, 2, 3, 3]),
+    case = {"kind": "game", "bpg": r.choice([1, 2, 3, 3, 4]), "maxp": maxp, "known": r.choice([1, 2, 3, 3]),
             "hooks": hooks, "ops": ops}
+    if r.random() < 0.3:
+        case["veto"] = [r.random() < 0.5 for _ in range(4)]
+    return case
+
+
+WORLD_ACTS = [("drain1", 14), ("drain2", 9), ("rdrain", 4), ("newball", 3), ("pfadd", 7), ("mbstart", 7), ("mbadd", 3), ("mbstop", 1), ("saveon", 4),
+              ("saveearly", 4), ("saveoff", 1), ("tiltwarn", 10), ("tilt", 4), ("slamtilt", 3), ("start", 8), ("endball", 4),
+              ("endgame", 3), ("extraball", 5), ("addplayer", 3), ("setbpg", 1), ("restart", 1)]
+
+
+def gen_world(r):
+    tot = sum(w for _, w in WORLD_ACTS)
+
+    def act():
+        x = r.random() * tot
+        for name, w in WORLD_ACTS:
+            x -= w
+            if x < 0:
+                break
+        if name == "drain1":
+            return ["drain", 1]
+        if name == "drain2":
+            return ["drain", r.choice([2, 2, 3, 9, 9])]       # 9 = every loose ball at once
+        if name == "setbpg":
+            return ["setbpg", r.choice([1, 2, 3])]
+        if name == "rdrain":
+            return ["rdrain", r.choice([1, 2, 2, 3])]
+        return [name]
+    maxp = r.choice([1, 2, 2, 3])
+    hooks = gen_hooks(r, act, [0, 0, 1, 1, 2, 3], maxp)
+    ops = []
+    if r.random() < 0.85:
+        ops.append(["adv", r.choice([24, 40])])       # the first ball reaches the playfield
+    for _ in range(r.randint(3, 12)):
+        ops.append(act() if r.random() < 0.7 else ["adv", r.choice([1, 4, 8, 24, 40, 80])])
+    active = r.choice([0, 2, 5, 10])
+    case = {"kind": "world", "bpg": r.choice([1, 2, 2, 3]), "maxp": maxp, "balls": r.choice([2, 3, 3, 4]),
+            "wait_empty": r.random() < 0.7,
+            "save": {"n": r.choice([1, 1, 2, -1]), "active": active, "hurry": r.choice([0, 1000]) if active else 0,
+                     "grace": r.choice([0, 500, 1000]), "auto": r.random() < 0.6, "last": r.random() < 0.2},
+            "mb": {"count": r.choice([2, 2, 3]), "type": r.choice(["total", "total", "add"]), "shoot": r.choice([0, 0, 2000, 5000])},
+            "tilt": {"warn": r.choice([1, 2, 2, 3]), "settle": r.choice([0, 500, 1000, 2000])},
+            "timing": {"leave": r.choice([1, 2]), "transit": r.choice([2, 4, 8])},       # ticks of 1/16 s
+            "hooks": hooks, "ops": ops}
+    if r.random() < 0.25:
+        case["veto"] = [r.random() < 0.5 for _ in range(4)]
+    return case
+
+
+def fmt(s):
+    return "bip=%d players=%d ending=%d tilted=%d slam=%d endev=%d warn=%d known=%d" % tuple(s)
 
 
 def schedule(case, real):
-    ops, exp = ["reset %d %d %d" % (case["bpg"], case["maxp"], case["known"])], ["ok"]
+    ops, exp = [], []
     last_ev = None
+    first = True
+    kn = None
     for e in real.L:
-        if e[0] == "ev":
+        if e[0] == "cfg":
+            if first:
+                ops.append("reset %d %d %d %d" % (e[1], e[2], e[4], e[3]))
+                exp.append("ok")
+                first = False
+                kn = e[4]
+            if last_ev is not None:
+                # a new game although the previous one was never seen to leave the game slot (restart): the old coroutine is gone
+                ops.append("finish" if last_ev == "game_ended" else "state")
+                exp.append("ok" if last_ev == "game_ended" else "game=0")
+                last_ev = None
+            ops.append("config %d %d" % (e[1], e[2]))
+            exp.append("ok")
+            if e[4] != kn:      # balls found (or written off) while no game was running
+                kn = e[4]
+                ops.append("known %d" % kn)
+                exp.append(None)
+        elif e[0] == "ev":
             last_ev = e[1]
             ops.append("start" if e[1] == "game_will_start" else "resume")
-            s = e[4]
-            exp.append("%s:%d:%d | bip=%d players=%d ending=%d" % (e[1], e[2], e[3], s[0], s[1], s[2]))
+            exp.append("%s:%d:%d | %s" % (e[1], e[2], e[3], fmt(e[4])))
+        elif e[0] == "env" and e[1] == "restartreq":
+            pass
         elif e[0] == "env":
             ops.append(e[1])
-            s = e[2]
-            exp.append("| bip=%d players=%d ending=%d" % (s[0], s[1], s[2]) if s else "not-enabled")
+            if e[1] == "abort":
+                exp.append("ok")
+                last_ev = None
+            elif e[1].startswith("known "):
+                kn = int(e[1].split()[1])
+                exp.append(None)        # any answer but not-enabled; the value is compared from the next line on
+            else:
+                exp.append("| " + fmt(e[2]) if e[2] else "not-enabled")
         elif e[0] == "q":
             if last_ev == "game_ended" and e[1] is None:
                 ops.append("finish")
@@ -556,12 +1003,29 @@ def one_case(ctx, model, case, sample=True):
     real, crash = run_real(case)
     ctx.evaluated(case, is_nontrivial(real), sample=sample)
     if real is not None:
+        pre = "w_" if real.world else ""
         for e in real.L:
             if e[0] == "env":
-                ctx.count("req_" + e[1].split()[0] + ("_in_handler" if e[3] else ""))
+                ctx.count(pre + "req_" + e[1].split()[0] + ("_in_handler" if e[3] else ""))
             elif e[0] == "ev":
-                ctx.count("events")
+                ctx.count(pre + "events")
+        for k, v in real.counts.items():
+            for _ in range(v):
+                ctx.count(k)
+        if real.forced:
+            ctx.count("world_finish_needed_end_game_request")
+        if real.tilt_holds:
+            ctx.count("observation_tilt_mode_never_releases_ball_ending")
+            ctx.notes["observation_tilt_mode_never_releases_ball_ending"] = case
+        if real.world and ("second",) in real.L and not real.start_accepted:
+            ctx.count("world_second_start_refused_by_ball_controller")
+    if real is not None and crash is not None and not real.crash_in_anchor:
+        ctx.count("observation_crash_outside_game_code")
+        ctx.notes["observation_crash_outside_game_code"] = {"error": crash[:300], "traceback_tail": real.crash_tb[-600:], "case": case}
+        return
     res = oracle(case, real, crash)
+    if res is None and crash is not None:
+        return
     if res is not None:
         if res[0] in KNOWN_SIGS and any(f["signature"] == res[0] for f in ctx.failures):
             ctx.count("known_" + res[0])        # recorded (and shrunk) once per run
@@ -572,6 +1036,7 @@ def one_case(ctx, model, case, sample=True):
     if model is not None:
         ops, exp = schedule(case, real)
         got = run_model(model, ops)
+        exp = [got[k] if (exp[k] is None and got[k] not in ("not-enabled", "bad-op")) else exp[k] for k in range(len(ops))]
         bad = [k for k in range(len(ops)) if exp[k] != got[k]]
         ctx.compare(dict(case, what="step replay", first_diff=([ops[bad[0]], bad[0]] if bad else None)), exp, got)
 
@@ -594,17 +1059,80 @@ def corpus():
     # (fixed) a player added inside player_turn_starting of player 1's second turn (guard sees ball 1)
     c.append({"kind": "game", "bpg": 3, "maxp": 4, "known": 2, "ops": [["drain", 1], ["addplayer"]],
               "hooks": [{"event": "player_turn_starting", "prio": 100000, "max": 2, "acts": [["setbip", 0], ["wait", 5]]}]})
+    # a drain reporting more balls than are in play (relay posted with balls=2 while balls_in_play == 1): the ball ends
+    c.append({"kind": "game", "bpg": 2, "maxp": 1, "known": 3, "ops": [["adv", 4], ["drain", 2], ["adv", 4]], "hooks": []})
+    # ---- session 3: vetoed adds, restart, balls_per_game template, end_game inside another player's queue event
+    # first player vetoed, then end_game while the game waits for a player (fixed: used to wait for ever)
+    c.append({"kind": "game", "bpg": 3, "maxp": 2, "known": 3, "ops": [["adv", 4], ["endgame"], ["adv", 4]], "hooks": [],
+              "veto": [True, False]})
+    # restart during ball 1 (mode stopped, game_start as soon as it has stopped; fixed: the old task's callback killed the new game)
+    c.append({"kind": "game", "bpg": 2, "maxp": 2, "known": 3, "ops": [["adv", 4], ["addplayer"], ["restart"], ["adv", 4]], "hooks": []})
+    # balls_per_game template changed during ball 1 of a 3-ball game: this game keeps 3, the next one has 1
+    c.append({"kind": "game", "bpg": 3, "maxp": 1, "known": 3, "ops": [["adv", 4], ["setbpg", 1], ["adv", 4]], "hooks": []})
+    # end_game inside player 2's ball_ending / player_turn_starting
+    for ev in QUEUE_EVS[1:5]:
+        c.append({"kind": "game", "bpg": 2, "maxp": 2, "known": 3, "ops": [["addplayer"], ["adv", 4]],
+                  "hooks": [{"event": ev, "prio": 1, "max": 1, "player": 2, "acts": [["wait", 2], ["endgame"]]}]})
+    return c
+
+
+W0 = {"kind": "world", "bpg": 2, "maxp": 2, "balls": 3, "wait_empty": True,
+      "save": {"n": 1, "active": 5, "hurry": 1000, "grace": 500, "auto": False, "last": False},
+      "mb": {"count": 2, "type": "total", "shoot": 0}, "tilt": {"warn": 2, "settle": 1000},
+      "timing": {"leave": 1, "transit": 4}, "hooks": [], "ops": []}
+
+
+def world_corpus():
+    c = []
+    # a drain reporting MORE balls than are in play: a second ball reaches the playfield without the game counting it
+    # (playfield.add_ball by a device), both roll into the trough together: ball_drain balls=2 with balls_in_play == 1
+    c.append(dict(W0, ops=[["adv", 40], ["pfadd"], ["adv", 40], ["drain", 9], ["adv", 24]]))
+    # the real devices report drains ball by ball; the relay posted with 2 while one ball is in play (and with a ball save armed)
+    c.append(dict(W0, ops=[["adv", 40], ["rdrain", 2], ["adv", 24], ["drain", 9], ["adv", 24]]))
+    c.append(dict(W0, save=dict(W0["save"], auto=True, n=2), ops=[["adv", 40], ["mbstart"], ["adv", 40], ["rdrain", 3], ["adv", 40], ["drain", 9], ["adv", 24]]))
+    # the same with a ball MPF does not know at all
+    c.append(dict(W0, ops=[["adv", 40], ["newball"], ["drain", 9], ["adv", 24]]))
+    # ball save: the drained ball is given back (drain 0 reaches the game), the second drain ends the ball; early save; unlimited
+    c.append(dict(W0, save=dict(W0["save"], auto=True), ops=[["adv", 40], ["drain", 1], ["adv", 40], ["drain", 1], ["adv", 24]]))
+    c.append(dict(W0, save=dict(W0["save"], auto=True, n=-1, active=0),
+                  ops=[["adv", 40], ["saveearly"], ["adv", 24], ["drain", 1], ["adv", 40], ["drain", 9], ["adv", 40], ["saveoff"], ["drain", 9]]))
+    # hurry-up / grace period: drains inside and after the grace period
+    c.append(dict(W0, save=dict(W0["save"], auto=True, active=2, grace=1000), ops=[["adv", 40], ["drain", 1], ["adv", 40], ["drain", 1]]))
+    # multiball: two balls in play, one drains (ball goes on), then the other
+    c.append(dict(W0, ops=[["adv", 40], ["mbstart"], ["adv", 40], ["drain", 1], ["adv", 24], ["drain", 1], ["adv", 24]]))
+    c.append(dict(W0, mb=dict(W0["mb"], shoot=5000), ops=[["adv", 40], ["mbstart"], ["adv", 40], ["drain", 1], ["adv", 40], ["mbadd"], ["adv", 40], ["drain", 9]]))
+    # tilt warnings up to the tilt; the tilt mode holds ball_ending until the ball is home and the bob has settled
+    c.append(dict(W0, ops=[["adv", 40], ["tiltwarn"], ["adv", 4], ["tiltwarn"], ["adv", 24], ["drain", 1], ["adv", 40]]))
+    # tilt while the ball is ending (a handler holds ball_ending)
+    c.append(dict(W0, ops=[["adv", 40], ["drain", 1], ["adv", 8], ["tilt"], ["adv", 40]],
+                  hooks=[{"event": "ball_ending", "prio": 1, "max": 1, "acts": [["wait", 9]]}]))
+    # slam tilt during game start, during a ball, during ball ending
+    c.append(dict(W0, hooks=[{"event": "game_starting", "prio": 1, "max": 1, "acts": [["slamtilt"]]}], ops=[["adv", 40], ["drain", 1], ["adv", 40]]))
+    c.append(dict(W0, ops=[["adv", 40], ["start"], ["adv", 4], ["slamtilt"], ["adv", 8], ["drain", 1], ["adv", 40]]))
+    c.append(dict(W0, hooks=[{"event": "ball_ending", "prio": 1, "max": 1, "acts": [["wait", 5], ["slamtilt"]]}], ops=[["adv", 40], ["drain", 1], ["adv", 40]]))
+    # wait_for_empty_playfields_on_ball_start: end_ball with the ball still on the playfield; the next ball waits for the drain
+    c.append(dict(W0, ops=[["adv", 40], ["endball"], ["adv", 40], ["drain", 1], ["adv", 40]]))
+    c.append(dict(W0, wait_empty=False, ops=[["adv", 40], ["endball"], ["adv", 40], ["drain", 1], ["adv", 40], ["drain", 9]]))
+    # player 2 through the start button, vetoed once; end_game inside player 2's ball_starting; restart in the real world
+    c.append(dict(W0, veto=[False, True, False], ops=[["adv", 8], ["start"], ["adv", 4], ["start"], ["adv", 40], ["drain", 1], ["adv", 40]],
+                  hooks=[{"event": "ball_starting", "prio": 1, "max": 1, "player": 2, "acts": [["endgame"]]}]))
+    c.append(dict(W0, ops=[["adv", 40], ["restart"], ["adv", 40], ["drain", 9], ["adv", 40]]))
     return c
 
 
 def run(ctx):
     model = None if getattr(ctx, "model_unavailable", False) else leanproc.LeanProc(ID)
     try:
-        for case in corpus():
+        for case in corpus() + world_corpus():
             one_case(ctx, model, case)
-        for i in range(ctx.n(1000, 12000)):
-            one_case(ctx, model, gen_case(ctx.rng("case", i)))
-            if len([f for f in ctx.failures if f["signature"] not in KNOWN_SIGS]) >= 3:
+        nf, nw = ctx.n(650, 7000), ctx.n(380, 3700)
+        # the two streams are interleaved so that an early stop (3 failures) has seen both
+        for i in range(max(nf, nw)):
+            if i < nw:
+                one_case(ctx, model, gen_world(ctx.rng("world", i)))
+            if i < nf:
+                one_case(ctx, model, gen_case(ctx.rng("case", i)))
+            if len({f["signature"] for f in ctx.failures if f["signature"] not in KNOWN_SIGS}) >= 3:
                 break
     finally:
         if model is not None:
